@@ -29,7 +29,28 @@ def run(tier, seed):
     dom_viewer(rep, quick, seed)
     xml_option_matrix(rep, quick, seed)
     convertible_inputs(rep, quick, seed)
+    text_view(rep, quick, seed)
     return rep.finish()
+
+
+def text_view(rep, quick, seed):
+    """TextView.tla: rbx_binary::text_format::DecodedModel (rbx_util view-binary) against BinaryWire.tla."""
+    from bin_checks import export_db, validate_cases, cleanup, find_event
+    n_total = 0
+    for mode, cnt in (("mixed", 60 if quick else 1500), ("shapes", 40 if quick else 600), ("columns", 40 if quick else 600)):
+        trace = os.path.join(OUT, "extra_textview_%s.ndjson" % mode)
+        rbxv(["bin-cases", "--seed", seed + 11, "--count", cnt, "--max-instances", 6, "--mode", mode], stdout_path=trace,
+             env={"RBXV_TEXT_VIEW": "1"})
+        n, fails = validate_cases("BinaryFormatTrace", trace, {"DBJSON": export_db(), "DIALECT": "code", "CLAUSES": "roundtrip"})
+        n_total += n
+        for c in fails:
+            if not c["clause"].startswith(("textview", "judge-error")):
+                continue
+            for iss in (c.get("issues") or [[0, "", ""]]):
+                rep.violation("textview|%s|%s" % (iss[1], iss[2]), lambda c=c: {"case": c, "event": find_event(c["part"], c["ep"])},
+                              "%s: DecodedModel and BinaryWire.tla disagree on chunk %s (%s %s)" % (c["ep"], iss[0], iss[1], iss[2]))
+        cleanup(trace, rep)
+    log("[extras] text view: %d files, DecodedModel structure judged against BinaryWire.tla" % n_total)
 
 
 def convertible_inputs(rep, quick, seed):
